@@ -3,8 +3,11 @@ package main
 import (
 	"bytes"
 	"encoding/json"
+	"flag"
 	"fmt"
 	"os"
+	"os/exec"
+	"path/filepath"
 	"sort"
 	"sync"
 
@@ -104,7 +107,7 @@ func taskBody(x *caller, id int, ops []Op, skip []bool, results []*OpResult, hp 
 // own step budget; one that exceeds it (or panics) is "solo-abnormal": it is
 // excluded from the simulated pass and from comparison (that is C05's
 // business, not C16's).
-func soloPass(s *Spec, pool []geojson.Object, opBudget int64) (results [][]*OpResult, steps int64, hps []harnessPanic) {
+func soloPass(s *Spec, pool []geojson.Object, opBudget int64, taskOrder []int) (results [][]*OpResult, steps int64, hps []harnessPanic) {
 	results = newTaskResults(s.Tasks)
 	var mu sync.Mutex
 	// operations already seen not to terminate normally in this pass: an
@@ -115,7 +118,12 @@ func soloPass(s *Spec, pool []geojson.Object, opBudget int64) (results [][]*OpRe
 		b, _ := json.Marshal(op)
 		return string(b)
 	}
-	for t := range s.Tasks {
+	if taskOrder == nil {
+		for t := range s.Tasks {
+			taskOrder = append(taskOrder, t)
+		}
+	}
+	for _, t := range taskOrder {
 		done := make(chan struct{})
 		go func(t int) {
 			defer close(done)
@@ -351,6 +359,8 @@ type RunResult struct {
 	Stat       *RunStat
 	Violations []Violation
 	Infra      []string // harness problems (never verdicts)
+	skip       [][]bool
+	kinds      [][]string
 }
 
 func hashSpecWorkload(s *Spec) uint64 {
@@ -380,7 +390,7 @@ func runSpec(s *Spec, sched func(soloSteps int64), rl *raceLog) *RunResult {
 
 	var bs buildStats
 	twin := buildPool(s, &bs)
-	solo, soloSteps, hps := soloPass(s, twin, soloOpBudget(s.Tier))
+	solo, soloSteps, hps := soloPass(s, twin, soloOpBudget(s.Tier), nil)
 	// operations that do not terminate normally even alone are left out
 	skip := make([][]bool, len(s.Tasks))
 	for t := range s.Tasks {
@@ -434,6 +444,7 @@ func runSpec(s *Spec, sched func(soloSteps int64), rl *raceLog) *RunResult {
 	st.Stray = vst.Stray
 	st.SoloRes, st.SimRes = solo, sim
 
+	rr.skip, rr.kinds = skip, kinds
 	rr.Violations = compare(s, kinds, solo, sim, skip, vst.Deadlock, st)
 	st.Blocked = vst.Blocked
 	st.Deadlock = vst.Deadlock
@@ -511,4 +522,129 @@ func aloneValue(s *Spec, t, i int) string {
 	<-done
 	verifsim.SetMode(verifsim.ModeOff, 0)
 	return fmt.Sprintf("status=%d %s", res.Status, trunc(res.Res, 600))
+}
+
+
+// ---- history-independence audit --------------------------------------------
+//
+// The reference pass and the simulated pass share one process, so state the
+// library keeps at package level (a value-keyed cache, an intern table) is
+// populated by the first and only read by the second: both agree even if the
+// state makes a call's answer depend on which other calls came before. The
+// audit therefore repeats the reference pass in a FRESH PROCESS, on a fresh
+// pool, with the task order reversed. Two sequential executions of the same
+// legal calls that disagree mean that at least one call does not return "the
+// value it returns when run alone".
+
+// AuditRes is one operation outcome as printed by `simworker audit`.
+type AuditRes struct {
+	S int    `json:"s"`
+	R []byte `json:"r"`
+	L uint64 `json:"l"`
+}
+
+func cmdAudit(args []string) int {
+	fs := flag.NewFlagSet("audit", flag.ExitOnError)
+	in := fs.String("in", "", "spec file")
+	nsites := fs.Int("sites", 4096, "number of yield sites")
+	_ = fs.Parse(args)
+	var rf ReplayFile
+	if err := readJSONFile(*in, &rf); err != nil {
+		fmt.Fprintln(os.Stderr, "simworker audit:", err)
+		return 2
+	}
+	verifsim.SetSites(*nsites)
+	s := &rf.Spec
+	restore := applyKnobs(s.Knobs)
+	defer restore()
+	var bs buildStats
+	pool := buildPool(s, &bs)
+	order := make([]int, 0, len(s.Tasks))
+	for t := len(s.Tasks) - 1; t >= 0; t-- {
+		order = append(order, t)
+	}
+	res, _, _ := soloPass(s, pool, soloOpBudget(s.Tier), order)
+	out := make([][]AuditRes, len(res))
+	for t := range res {
+		out[t] = make([]AuditRes, len(res[t]))
+		for i, r := range res[t] {
+			out[t][i] = AuditRes{S: r.Status, R: r.Res, L: r.Late}
+		}
+	}
+	b, _ := json.Marshal(out)
+	os.Stdout.Write(b)
+	return 0
+}
+
+// auditHistory runs the audit subprocess for s and compares with the
+// reference pass of this process.
+func auditHistory(s *Spec, rr *RunResult, nsites int, tmpDir string) ([]Violation, error) {
+	p := filepath.Join(tmpDir, fmt.Sprintf("audit-%d-%d-%d.json", os.Getpid(), s.Worker, s.Run))
+	if err := writeJSONFile(p, &ReplayFile{Property: "C16", Spec: *s}); err != nil {
+		return nil, err
+	}
+	defer os.Remove(p)
+	cmd := exec.Command(os.Args[0], "audit", "-in", p, "-sites", fmt.Sprint(nsites))
+	cmd.Env = append(filterEnv(os.Environ(), "GORACE"), "GORACE=halt_on_error=0 exitcode=0 atexit_sleep_ms=0")
+	outb, err := cmd.Output()
+	if err != nil {
+		return nil, fmt.Errorf("audit subprocess: %v", err)
+	}
+	var other [][]AuditRes
+	if err := json.Unmarshal(outb, &other); err != nil {
+		return nil, fmt.Errorf("audit output: %v", err)
+	}
+	solo := rr.Stat.SoloRes
+	var vs []Violation
+	for t := range s.Tasks {
+		if t >= len(other) || t >= len(solo) {
+			break
+		}
+		for i := range s.Tasks[t] {
+			if i >= len(other[t]) || rr.skip[t][i] {
+				continue
+			}
+			a, b := solo[t][i], other[t][i]
+			if b.S == StPanic || b.S == StAborted {
+				continue
+			}
+			if a.Status == b.S && bytes.Equal(a.Res, b.R) && a.Late == b.L {
+				continue
+			}
+			op := &s.Tasks[t][i]
+			kind := rr.kinds[t][i]
+			vs = append(vs, Violation{
+				Class: "value", Key: "value:" + op.M + ":" + kind + ":history",
+				Task: t, OpIndex: i, Method: op.M, Kind: kind,
+				Detail: "the call returns different values in two sequential executions of the same calls on identically built objects (this process: tasks in order; a fresh process: tasks in reverse order): its answer depends on which other calls were made before, so it is not the value it returns when run alone",
+				Got:    trunc(b.R, 600), Want: trunc(a.Res, 600),
+				Alone:  aloneInFreshProcess(s, t, i, nsites, tmpDir),
+			})
+		}
+	}
+	return vs, nil
+}
+
+// aloneInFreshProcess: the single call, in its own process, on a fresh pool.
+func aloneInFreshProcess(s *Spec, t, i int, nsites int, tmpDir string) string {
+	c := cloneSpec(s)
+	c.Tasks = [][]Op{{s.Tasks[t][i]}}
+	c.Order = []int32{0}
+	c.Decisions = nil
+	p := filepath.Join(tmpDir, fmt.Sprintf("alone-%d-%d-%d.json", os.Getpid(), s.Worker, s.Run))
+	if err := writeJSONFile(p, &ReplayFile{Property: "C16", Spec: *c}); err != nil {
+		return ""
+	}
+	defer os.Remove(p)
+	cmd := exec.Command(os.Args[0], "audit", "-in", p, "-sites", fmt.Sprint(nsites))
+	cmd.Env = append(filterEnv(os.Environ(), "GORACE"), "GORACE=halt_on_error=0 exitcode=0 atexit_sleep_ms=0")
+	outb, err := cmd.Output()
+	if err != nil {
+		return ""
+	}
+	var other [][]AuditRes
+	if json.Unmarshal(outb, &other) != nil || len(other) == 0 || len(other[0]) == 0 {
+		return ""
+	}
+	return fmt.Sprintf("status=%d %s", other[0][0].S, trunc(other[0][0].R, 600))
 }
